@@ -14,6 +14,7 @@ import copy
 import difflib
 import logging
 import os
+import uuid
 import typing
 
 import pydantic.typing
@@ -633,10 +634,16 @@ class FlowIRExperimentConfiguration:
                 out_errors.append(e)
 
         if create_instance_files and (exists_manifest is False or update_instance_files is True):
+            temp_file = '%s.%s.tmp' % (manifest_file, uuid.uuid4())
             try:
-                with open(manifest_file, 'w') as f:
+                with open(temp_file, 'w') as f:
                     experiment.model.frontends.flowir.yaml_dump(self.manifestData, f)
+                os.replace(temp_file, manifest_file)
             except Exception as e:
+                try:
+                    os.remove(temp_file)
+                except OSError:
+                    pass
                 out_errors.append(e)
 
     @property
@@ -680,14 +687,26 @@ class FlowIRExperimentConfiguration:
         This is version of FlowIR without any component replication
         """
         instance_file = os.path.join(self._conf_dir, 'flowir_instance.yaml')
-        with open(instance_file, 'w') as f:
-            primitive = self._unreplicated.instance(ignore_errors=True, inject_missing_fields=False,
-                                                    fill_in_all=False, is_primitive=True)
-            # primitive = experiment.model.frontends.flowir.FlowIR.compress_flowir(primitive)
-            pretty_primitive = experiment.model.frontends.flowir.FlowIR.pretty_flowir_sort(primitive)
-            experiment.model.frontends.flowir.yaml_dump(
-                pretty_primitive, f, sort_keys=False, default_flow_style=False
-            )
+        primitive = self._unreplicated.instance(ignore_errors=True, inject_missing_fields=False,
+                                                fill_in_all=False, is_primitive=True)
+        # primitive = experiment.model.frontends.flowir.FlowIR.compress_flowir(primitive)
+        pretty_primitive = experiment.model.frontends.flowir.FlowIR.pretty_flowir_sort(primitive)
+
+        # VV: The file is re-written while the experiment runs (e.g. after every DoWhile iteration). Write a temporary
+        # file and rename it so that a crash or an I/O error never leaves a truncated instance description behind
+        temp_file = '%s.%s.tmp' % (instance_file, uuid.uuid4())
+        try:
+            with open(temp_file, 'w') as f:
+                experiment.model.frontends.flowir.yaml_dump(
+                    pretty_primitive, f, sort_keys=False, default_flow_style=False
+                )
+            os.replace(temp_file, instance_file)
+        except Exception:
+            try:
+                os.remove(temp_file)
+            except OSError:
+                pass
+            raise
 
     @property
     def configurationDirectory(self):
